@@ -10,6 +10,7 @@ import (
 	"time"
 
 	sgbucket "github.com/couchbase/sg-bucket"
+	"pgregory.net/rapid"
 )
 
 const sentinelPrefix = "__sentinel"
@@ -47,6 +48,9 @@ func (w *World) startFeed(fc FeedCfg, backfill uint64, dump bool, checkpoint str
 	id := fmt.Sprintf("feed%d", atomic.AddInt64(&feedSerial, 1))
 	if checkpoint == "cp" {
 		id = "cpfeed" // (C15's scripts resume one feed by its ID)
+	}
+	if checkpoint == "ck" {
+		id = "c11" // (CpDumpStep: one feed ID for every collection)
 	}
 	args := sgbucket.FeedArguments{ID: id, Backfill: backfill, Dump: dump, KeysOnly: fc.KeysOnly, Terminator: c.term, DoneChan: c.done, CheckpointPrefix: checkpoint}
 	cb := func(ev sgbucket.FeedEvent) bool {
@@ -235,9 +239,84 @@ func (r *Run) SyncFeeds() {
 	r.Exp = nil
 }
 
+// CpDumpStep runs a resumable checkpointed dump feed (prefix "ck", one feed ID for every collection,
+// as a multi-collection consumer uses) on collection op.C. It must deliver the current version of
+// every document of that collection newer than what the collection's earlier runs delivered -
+// whatever happened in other collections and whatever feeds of the same ID ran there - and the
+// checkpoint document it leaves is a document of its own collection only (it enters the model like
+// any other document, so every other observer accounts for it).
+func (r *Run) CpDumpStep(op Op) {
+	w := r.W
+	m := w.Model
+	tr := StepTrace{Op: op, Outcome: "cp-dump"}
+	defer func() { r.Trace = append(r.Trace, tr) }()
+	nDev := len(r.Devs)
+	r.SyncFeeds()
+	const cpKey = "ck:c11"
+	col, err := w.startFeed(FeedCfg{H: op.H, C: op.C}, sgbucket.FeedResume, true, "ck")
+	if err != nil {
+		r.dev("cpdump.start", []string{"C15"}, "StartDCPFeed(resume, dump, checkpoint) on %s failed: %v", w.Cfg.Colls[op.C], err)
+		tr.Outcome = "DEVIATION"
+		return
+	}
+	select {
+	case <-col.done:
+	case <-time.After(30 * time.Second):
+		r.dev("cpdump.done", []string{"C15", "C16"}, "a checkpointed dump feed did not finish within 30s")
+		col.Stop()
+		tr.Outcome = "DEVIATION"
+		return
+	}
+	if r.cpSeen == nil {
+		r.cpSeen = map[int]uint64{}
+	}
+	from := r.cpSeen[op.C]
+	got := map[string]uint64{}
+	for _, ev := range col.take() {
+		if ev.Opcode == sgbucket.FeedOpMutation || ev.Opcode == sgbucket.FeedOpDeletion {
+			got[string(ev.Key)] = ev.Cas
+			if ev.Cas > r.cpSeen[op.C] {
+				r.cpSeen[op.C] = ev.Cas
+			}
+		}
+	}
+	for _, k := range m.Keys(op.C) {
+		st := m.Get(op.C, k)
+		if k == cpKey || !st.Present || st.Cas <= from {
+			continue
+		}
+		if got[k] != st.Cas {
+			r.dev("cpdump.skipped", []string{"C11", "C15"}, "the resumed checkpointed feed of %s (its earlier runs delivered up to %#x) did not deliver the current version of %q (cas %#x; delivered for the key: %#x)", w.Cfg.Colls[op.C], from, k, st.Cas, got[k])
+		}
+	}
+	// the checkpoint document is a document of this collection: account for it
+	ds := w.Coll(op.H, op.C)
+	post, _ := Observe(ds, cpKey, nil)
+	if prev := m.Get(op.C, cpKey); !post.Equal(prev) {
+		m.Commit(op.C, cpKey, post, "CpDump")
+		if post.Present && post.Cas != prev.Cas {
+			yes := true
+			r.Exp = append(r.Exp, ExpEvent{C: op.C, Key: cpKey, St: post, Step: r.step, OpK: "CpDump", IsJSON: &yes})
+		}
+	}
+	r.frame(op.C, cpKey, "a checkpointed dump feed on "+w.Cfg.Colls[op.C])
+	if len(r.Devs) > nDev {
+		tr.Outcome = "DEVIATION"
+	}
+}
+
+func genCpDump(rt *rapid.T, r *Run) (Op, bool) {
+	op := Op{K: "CpDump", C: pickColl(rt, r.W, "cpd.coll")}
+	if len(r.W.Handles) > 1 {
+		op.H = rapid.IntRange(0, len(r.W.Handles)-1).Draw(rt, "cpd.h")
+	}
+	return op, true
+}
+
 // ---- feeds started and stopped in the middle of a history ------------------------------------
 
 func init() {
+	pseudoHandlers["CpDump"] = func(r *Run, op Op) { r.CpDumpStep(op) }
 	pseudoHandlers["StartFeed"] = func(r *Run, op Op) { r.StartFeedStep(op) }
 	pseudoHandlers["StopFeed"] = func(r *Run, op Op) { r.StopFeedStep(op) }
 }
